@@ -20,7 +20,9 @@ RULE = ('every rectangular table with n rows (0..max, header-only and single-row
         '(key column x value column {1,2}, with and without an id column; two key columns x value column) x key '
         'forms {None, field, index, compound, list} x call variants {default, presorted=True on reference-sorted '
         'input; buffersize 1/2 and cache=False on the small family} x operations {duplicates, unique, '
-        'duplicates+unique partition, distinct, distinct(count=), conflicts (missing/include/exclude forms), '
+        'duplicates+unique partition, distinct, distinct(count=), conflicts (include/exclude forms; missing markers '
+        'identical to the cells (1), equal but of another type (1.0, True vs int 1) and equal but a different object '
+        '(run-time built str, parsed float, tuple, large int: cells and argument are built by separate calls)), '
         'isunique}; states = distinct (table, key, variant) points; transitions = operator evaluations; a state '
         'is non-trivial when the table holds both a key occurring once and a key occurring more than once')
 ASSUMPTIONS = [
@@ -46,10 +48,11 @@ def _families(tier, seed):
     fams = {}
     base = ('default', 'presorted')
     fams['kv'] = dict(hdr=('k', 'v'), syms=[(k, v) for k in (K6 if thorough else K4) for v in V], maxn=4,
-                      keys=[None, 'k', 0, ('k', 'v'), ('k',)], variants=base, cargs=('plain', 'missing1', 'inc_v'))
+                      keys=[None, 'k', 0, ('k', 'v'), ('k',)], variants=base,
+                      cargs=('plain', 'missing1', 'missing1f', 'missingTrue', 'inc_v'))
     fams['kvid'] = dict(hdr=('k', 'v', 'id'), syms=[(k, v, '#') for k in K4 for v in V], maxn=5 if thorough else 4,
                         keys=['k', None, ('k', 'v'), ['k']], variants=base,
-                        cargs=('plain', 'exc_id', 'inc_v', 'exc_id_v', 'missing1_exc_id'))
+                        cargs=('plain', 'exc_id', 'inc_v', 'exc_id_v', 'missing1_exc_id', 'missing1f_exc_id'))
     fams['k2'] = dict(hdr=('k', 'k2', 'v'), syms=[(k, k2, v) for k in K4 for k2 in (None, K4[1]) for v in V],
                       maxn=4 if thorough else 3, keys=[('k', 'k2'), ['k', 'k2'], (0, 1), 'k', None, ('k2', 'k')],
                       variants=base, cargs=('plain', 'inc_v'))
@@ -61,10 +64,38 @@ def _families(tier, seed):
     HK = [-1, -2, 0, 2 ** 61 - 1]
     fams['hk'] = dict(hdr=('k', 'v'), syms=[(k, v) for k in HK for v in (1,)] + [(-1, 2)], maxn=3,
                       keys=['k', None, ('k', 'v')], variants=('default',), cargs=('plain',))
+    # missing-marker families: the value column holds a marker cell (fresh object per row) or one of two other
+    # values of the same type; conflicts(missing=<another fresh, equal object>) must not count the marker
+    for kind in ('str', 'float', 'tuple', 'bigint'):
+        a, b = _OTHERS[kind]
+        fams['mk_' + kind] = dict(hdr=('k', 'v'), syms=[(k, v) for k in K3[1:] for v in (_Mark(kind), a, b)],
+                                  maxn=4 if thorough else 3, keys=['k', ('k',)], variants=base,
+                                  cargs=('plain', 'miss_%s' % kind, 'miss_%s_inc_v' % kind), ops=('conflicts',))
     # strategy variants on a smaller family (the sort below the operators is C05's subject)
     fams['kvb'] = dict(hdr=('k', 'v'), syms=[(k, v) for k in K3 for v in V], maxn=4 if thorough else 3,
                        keys=[None, 'k'], variants=('bs1', 'bs2', 'bs1-nocache'), cargs=('plain',))
     return fams
+
+
+# "missing" markers that are EQUAL to cells of the table but never the same object: every call builds a new
+# object (run-time str, parsed float, tuple, int beyond CPython's small-int cache).  Cells are built by one
+# call per row, the conflicts(missing=...) argument by another, so an implementation that recognises the
+# marker by identity (or by type) instead of == is visible.
+_FRESH = {'str': lambda: ''.join(['N', 'A']), 'float': lambda: float('-999'), 'tuple': lambda: tuple([0]),
+          'bigint': lambda: int('100000')}
+_OTHERS = {'str': ('x', 'y'), 'float': (2.5, 3.5), 'tuple': ((1,), (2,)), 'bigint': (7, 8)}
+
+
+class _Mark(object):
+    """Placeholder in a row symbol: replaced by a freshly built marker object in every row."""
+    def __init__(self, kind):
+        self.kind = kind
+
+
+def _cell(c, i):
+    if isinstance(c, _Mark):
+        return _FRESH[c.kind]()
+    return i if (isinstance(c, str) and c == '#') else c
 
 
 def _table(fam, n, index):
@@ -75,7 +106,7 @@ def _table(fam, n, index):
         digits.append(index % b)
         index //= b
     digits.reverse()
-    return [tuple(i if c == '#' else c for c in syms[d]) for i, d in enumerate(digits)]
+    return [tuple(_cell(c, i) for c in syms[d]) for i, d in enumerate(digits)]
 
 
 def setup(tier, seed):
@@ -85,9 +116,18 @@ def setup(tier, seed):
 
 
 def _cargs(name):
-    """conflicts() argument forms by name."""
+    """conflicts() argument forms by name (marker objects are built anew on every call)."""
+    if name.startswith('miss_'):
+        parts = name.split('_')
+        d = {'missing': _FRESH[parts[1]]()}
+        if parts[2:] == ['inc', 'v']:
+            d['include'] = 'v'
+        return d
     return {'plain': {}, 'missing1': {'missing': 1}, 'inc_v': {'include': 'v'}, 'exc_id': {'exclude': 'id'},
-            'exc_id_v': {'exclude': ('id', 'v')}, 'missing1_exc_id': {'missing': 1, 'exclude': 'id'}}[name]
+            'exc_id_v': {'exclude': ('id', 'v')}, 'missing1_exc_id': {'missing': 1, 'exclude': 'id'},
+            # equal to the int cells 1 but of another type / not the same object
+            'missing1f': {'missing': float('1')}, 'missingTrue': {'missing': True},
+            'missing1f_exc_id': {'missing': float('1'), 'exclude': 'id'}}[name]
 
 
 def _kw(variant):
@@ -207,6 +247,8 @@ def _ops(fam, key):
            ('distinct-count', None)]
     if key is not None:
         ops += [('conflicts', c) for c in fam['cargs']]
+    if fam.get('ops'):
+        ops = [o for o in ops if o[0] in fam['ops']]
     return ops
 
 
@@ -224,7 +266,7 @@ def check_table(acc, famname, fam, rows):
             if nontriv:
                 acc.nontrivial += 1
             ops = _ops(fam, key)
-            if key is not None and variant in ('default', 'bs1'):
+            if key is not None and variant in ('default', 'bs1') and not fam.get('ops'):
                 ops = ops + [('isunique', None)]
             for op, cname in ops:
                 acc.evals += 1
@@ -249,7 +291,15 @@ def check_table(acc, famname, fam, rows):
             if variant == fam['variants'][0]:
                 acc.outcome((sorted(sizes), key is None))
         if key is not None:
-            acc.counters['conflicts-possible' if dr.conflicts_possible(hdr, rows, key) else 'conflicts-impossible'] += 1
+            plain = dr.conflicts_possible(hdr, rows, key)
+            acc.counters['conflicts-possible' if plain else 'conflicts-impossible'] += 1
+            for cname in fam['cargs']:
+                ca = _cargs(cname)
+                if 'missing' in ca and dr.conflicts_possible(hdr, rows, key, ca['missing'], ca.get('include'),
+                                                             ca.get('exclude')) < \
+                        dr.conflicts_possible(hdr, rows, key, None, ca.get('include'), ca.get('exclude')):
+                    # a group disagrees only through cells equal to the missing marker
+                    acc.counters['missing-marker-decides:' + cname] += 1
     acc.counters['tables:' + famname] += 1
 
 
@@ -323,6 +373,10 @@ def vacuity(cov, tier):
             problems.append('operation %s never evaluated' % op)
     if not c.get('conflicts-rows-returned'):
         problems.append('conflicts() never returned a row')
+    for fam in _P['fams'].values():
+        for cname in fam['cargs']:
+            if 'missing' in _cargs(cname) and not c.get('missing-marker-decides:' + cname):
+                problems.append('missing marker form %s never decides a case' % cname)
     if not c.get('conflicts-possible'):
         problems.append('no table on which conflicts() may return rows')
     return problems
